@@ -251,40 +251,106 @@ Definition dump_code (o : nopts) (ps : list palloc) (es : list edge) (clean : bo
 
 Definition lo_init : lobs := mkLO true [] [] [] [] [].
 
-(* fold over the history: every figure the implementation is judged against is recomputed
-   from the history (the live allocations [ps] as returned by the successful operations, the
-   edges [es]); returns the first failing clause and the final bookkeeping *)
+(* ---- informer events: the property's reading ----
+   which pods are alive on the node after an event, decided from the content of the event alone
+   (never from the ledger): a pod stops being alive when its deletion is reported — by a watch
+   event, by the tombstone of a re-list (DeletedFinalStateUnknown), or by the scheduler
+   forgetting it —, when it is seen terminated (Succeeded / Failed), or when it is seen
+   unassigned after having been assigned (another scheduler took it back); it is (re-)recorded
+   alive with the allocation its annotations spell when it is seen assigned, not terminated and
+   the annotations parse to a non-empty allocation. Events that do not carry a pod, and events
+   about a pod that is on no node, change nothing. *)
+Inductive effect :=
+| ELive (p : palloc)
+| EDead (uid : Z)
+| ENone.
+
+Definition ev_carries_pod (e : podev) : bool :=
+  (0 <=? ev_kind e) && (ev_kind e <=? 3) || (ev_kind e =? 6).
+Definition ev_is_deletion (e : podev) : bool :=
+  (ev_kind e =? 2) || (ev_kind e =? 3) || (ev_kind e =? 6).
+
+Definition event_effect (e : podev) : effect :=
+  let uid := p_uid (ev_pod e) in
+  if negb (ev_carries_pod e) then ENone
+  else if ev_is_deletion e then (if ev_assigned e then EDead uid else ENone)
+  else if negb (ev_assigned e)
+       then (if (ev_kind e =? 1) && ev_oldassigned e then EDead uid else ENone)
+  else if ev_terminated e then EDead uid
+  else if ev_malformed e || palloc_empty (ev_pod e) then ENone
+  else ELive (ev_pod e).
+
+Definition apply_effect (ps : list palloc) (f : effect) : list palloc :=
+  match f with
+  | ELive p => pods_put ps p
+  | EDead uid => pods_del ps uid
+  | ENone => ps
+  end.
+
+(* the live allocations of the node after one item of the history, given the allocation [r] a
+   (successful) Allocate returned: a function of the history alone *)
+Definition live_next (ps : list palloc) (x : item) (r : option palloc) : list palloc :=
+  match x, r with
+  | IOp (OAlloc _), Some p => pods_put ps p
+  | IOp (OAllocR _ _ victim), Some p =>
+    pods_put (match victim with Some v => pods_del ps v | None => ps end) p
+  | IOp (OAlloc _), None | IOp (OAllocR _ _ _), None => ps
+  | IOp (ORelease uid), _ => pods_del ps uid
+  | IOp (OUpdate p), _ => if palloc_empty p then ps else pods_put ps p
+  | IEvent e, _ => apply_effect ps (event_effect e)
+  | IEcho uid, _ => match find_pod uid ps with
+                    | Some p => if palloc_empty p then ps else pods_put ps p
+                    | None => ps
+                    end
+  end.
+
+(* one step of the bookkeeping of the specification: every figure the implementation is judged
+   against is recomputed from the history (the live allocations [ps] as returned by the
+   successful operations and as spelled by the events, the edges [es]); returns the failing
+   clause of the operation's own result (0 = none) and the bookkeeping afterwards *)
+Definition obs_result (rq : areq) (b : lobs) : option palloc :=
+  if lo_ok b then Some (mkP (r_uid rq) (lo_cpus b) (r_excl rq) (lo_numa b)) else None.
+
+Definition hist_step (o : nopts) (ps : list palloc) (es : list edge) (clean : bool)
+                     (x : item) (b : lobs) : Z * list palloc * list edge * bool :=
+  match x with
+  | IOp (OAlloc rq) =>
+    (if lo_ok b then alloc_code o rq ps b else fail_code o rq ps,
+     live_next ps x (obs_result rq b),
+     if lo_ok b then edges_del es (r_uid rq) else es, clean)
+  | IOp (ORelease uid) => (0, live_next ps x None, edges_del es uid, clean)
+  | IOp (OUpdate p) =>
+    (0, live_next ps x None, if palloc_empty p then es else edges_del es (p_uid p),
+     clean && palloc_empty p)
+  | IOp (OAllocR rq0 host0 victim0) =>
+    let '(rq, host, victim) := concretize ps es rq0 host0 victim0 in
+    (if lo_ok b then alloc_code o rq ps b else fail_code o rq ps,
+     live_next ps (IOp (OAllocR rq host victim)) (obs_result rq b),
+     if lo_ok b then edges_alloc es rq host victim (lo_cpus b) else es, clean)
+  | IEvent e =>
+    (0, live_next ps x None,
+     match event_effect e with
+     | ELive p => edges_del es (p_uid p)
+     | EDead uid => edges_del es uid
+     | ENone => es
+     end,
+     clean && match event_effect e with ELive _ => false | _ => true end)
+  | IEcho _ => (0, live_next ps x None, es, clean)
+  end.
+
 Fixpoint hist_fold (o : nopts) (ps : list palloc) (es : list edge) (clean : bool)
-                   (ops : list op) (obs : list lobs) : Z * list palloc * list edge * bool :=
+                   (ops : list item) (obs : list lobs) : Z * list palloc * list edge * bool :=
   match ops, obs with
   | [], [] => (0, ps, es, clean)
   | x :: ops', b :: obs' =>
-    let '(c, ps', es', clean') :=
-      match x with
-      | OAlloc rq =>
-        if lo_ok b
-        then (alloc_code o rq ps b, pods_put ps (mkP (r_uid rq) (lo_cpus b) (r_excl rq) (lo_numa b)),
-              edges_del es (r_uid rq), clean)
-        else (fail_code o rq ps, ps, es, clean)
-      | ORelease uid => (0, pods_del ps uid, edges_del es uid, clean)
-      | OUpdate p => if palloc_empty p then (0, ps, es, clean)
-                     else (0, pods_put ps p, edges_del es (p_uid p), false)
-      | OAllocR rq0 host0 victim0 =>
-        let '(rq, host, victim) := concretize ps es rq0 host0 victim0 in
-        if lo_ok b
-        then (alloc_code o rq ps b,
-              pods_put (match victim with Some v => pods_del ps v | None => ps end)
-                       (mkP (r_uid rq) (lo_cpus b) (r_excl rq) (lo_numa b)),
-              edges_alloc es rq host victim (lo_cpus b), clean)
-        else (fail_code o rq ps, ps, es, clean)
-      end in
+    let '(c, ps', es', clean') := hist_step o ps es clean x b in
     if negb (c =? 0) then (c, ps', es', clean')
     else let d := dump_code o ps' es' clean' b in
          if negb (d =? 0) then (d, ps', es', clean') else hist_fold o ps' es' clean' ops' obs'
   | _, _ => (99, ps, es, clean)
   end.
 
-Definition ledger_code (o : nopts) (ops : list op) (obs : list lobs) : Z :=
+Definition ledger_code (o : nopts) (ops : list item) (obs : list lobs) : Z :=
   fst (fst (fst (hist_fold o [] [] true ops obs))).
 
 (* ---- concurrent section (stream "conc") ----
@@ -292,7 +358,7 @@ Definition ledger_code (o : nopts) (ops : list op) (obs : list lobs) : Z :=
    goroutine while other goroutines call Allocate; Update is one critical section, so every
    Allocate must be consistent with the live allocations of the history, which the re-recording
    does not change *)
-Definition conc_code (o : nopts) (setup : list op) (reqs : list areq)
+Definition conc_code (o : nopts) (setup : list item) (reqs : list areq)
                      (obs_setup : list lobs) (results : list lobs) (final : lobs) : Z :=
   let '(c, ps, es, clean) := hist_fold o [] [] true setup obs_setup in
   if negb (c =? 0) then c
